@@ -96,6 +96,57 @@ def generate(L):
     if not f_test < min(f_merge, f_copy):
         raise L.GenError("fetch_authorship_notes: the local-ref test does not precede merge/copy")
 
+    # ---------------------------------------------------------------- pull: which exits wait for the notes fetch
+    relh = "src/commands/hooks/fetch_hooks.rs"
+    hsrc = L.read_src(relh)
+    pre = L.find_fn(hsrc, "pull_pre_command_hook", relh)
+    if not re.search(r"fetch_authorship_handle\s*=\s*fetch_pull_pre_command_hook\(", pre):
+        raise L.GenError("pull_pre_command_hook: the background notes fetch is no longer started there")
+    h = L.find_fn(hsrc, "pull_post_command_hook", relh)
+    body0 = h.index("{", h.index(")"))          # opening brace of the body
+    joins = []
+    depth = 0
+    for m in re.finditer(r"[{}]|if\s+let\s+Some\(handle\)\s*=\s*command_hooks_context\.fetch_authorship_handle\.take\(\)\s*\{\s*let\s+_\s*=\s*handle\.join\(\)\s*;", h[body0:]):
+        t = m.group(0)
+        if t == "{":
+            depth += 1
+        elif t == "}":
+            depth -= 1
+        else:
+            joins.append((body0 + m.start(), depth))
+            depth += 1                     # the `{` inside the matched text
+    mf = re.search(r"if\s*!\s*exit_status\.success\(\)\s*\{", h)
+    mu = re.search(r"if\s+old_head\s*==\s*new_head\s*\{", h)
+    mm = re.search(r"restore_stashed_va\(|was_fast_forward_pull\(", h)
+    if not (mf and mu and mm and mf.start() < mu.start() < mm.start()):
+        raise L.GenError("pull_post_command_hook: exits (failed pull / HEAD unchanged / rewrites) not recognised")
+    # end of the failed-pull block
+    d, k = 0, mf.end() - 1
+    while k < len(h):
+        if h[k] == "{":
+            d += 1
+        elif h[k] == "}":
+            d -= 1
+            if d == 0:
+                break
+        k += 1
+    failed_block = (mf.end(), k)
+    if "return" not in h[failed_block[0]:failed_block[1]]:
+        raise L.GenError("pull_post_command_hook: the failed-pull branch no longer returns")
+
+    def top_before(pos):
+        return any(p0 < pos and dep == 1 for p0, dep in joins)
+
+    join_failed = top_before(mf.start()) or any(failed_block[0] < p0 < failed_block[1] for p0, _ in joins)
+    join_unchanged = top_before(mu.start())
+    join_moved = top_before(mm.start())
+    fp = L.find_fn(hsrc, "fetch_pull_post_command_hook", relh)
+    if not re.search(r"fetch_authorship_handle\.take\(\)", fp) or "handle.join()" not in fp:
+        raise L.GenError("fetch_pull_post_command_hook: git fetch no longer waits for the notes fetch")
+    ph = L.find_fn(L.read_src("src/commands/hooks/push_hooks.rs"), "push_post_command_hook", "src/commands/hooks/push_hooks.rs")
+    if not re.search(r"push_authorship_handle\.take\(\)", ph) or "handle.join()" not in ph:
+        raise L.GenError("push_post_command_hook: git push no longer waits for the notes push")
+
     return "\n".join([
         "(* push_authorship_notes: is ref_exists(local notes ref) evaluated before the pre-push fetch /",
         "   before the rendezvous point that follows the fetch *)",
@@ -106,4 +157,8 @@ def generate(L):
         "Definition fetch_test_before_sync : bool := " + L.coq_bool(f_test < f_sync) + ".",
         "(* how many times push_authorship_notes runs fetch; test; merge-or-copy; push while git rejects the push *)",
         "Definition push_attempts : nat := " + str(attempts) + "%nat.",
+        "(* pull_post_command_hook: is the background notes fetch joined before the hook returns, per exit *)",
+        "Definition pull_join_failed : bool := " + L.coq_bool(join_failed) + ".",
+        "Definition pull_join_unchanged : bool := " + L.coq_bool(join_unchanged) + ".",
+        "Definition pull_join_moved : bool := " + L.coq_bool(join_moved) + ".",
     ])
